@@ -196,18 +196,18 @@ func run(p Params, res *Result, emit func(map[string]any), stage *atomic.Value) 
 	emit(map[string]any{"ev": "reset", "run": p.ID, "mtu": p.MTU, "buffers": p.Buffers})
 	// the writer's script is logged as issued (program order of the producer); errors it sees are
 	// logged after the reads (they are consequences of what the reader did)
+	ops := make([]map[string]any, 0, len(p.Script))
 	for _, op := range p.Script {
 		switch op.Op {
 		case "next":
-			emit(map[string]any{"ev": "next", "key": keyJSON(*op.Key)})
+			ops = append(ops, map[string]any{"op": "next", "key": keyJSON(*op.Key)})
 		case "write":
-			emit(map[string]any{"ev": "write", "n": op.N})
-		case "yield":
-			emit(map[string]any{"ev": "yield"})
-		case "close":
-			emit(map[string]any{"ev": "close"})
+			ops = append(ops, map[string]any{"op": "write", "n": op.N})
+		default:
+			ops = append(ops, map[string]any{"op": op.Op})
 		}
 	}
+	emit(map[string]any{"ev": "script", "ops": ops})
 
 	r, w := serviceinfo.NewChunkOutPipe(p.Buffers)
 
@@ -278,12 +278,12 @@ func run(p Params, res *Result, emit func(map[string]any), stage *atomic.Value) 
 			pt.at("consumer")
 			chunk, err := r.ReadChunk(maxRead)
 			if errors.Is(err, io.EOF) {
-				emit(map[string]any{"ev": "read", "size": int(maxRead), "out": "eof"})
+				emit(map[string]any{"ev": "read", "size": int(maxRead), "out": "eof", "nkv": len(batch), "arr": int(serviceinfo.ArraySizeCBOR(batch))})
 				eof = true
 				break
 			}
 			if errors.Is(err, serviceinfo.ErrSizeTooSmall) {
-				emit(map[string]any{"ev": "read", "size": int(maxRead), "out": "small"})
+				emit(map[string]any{"ev": "read", "size": int(maxRead), "out": "small", "nkv": len(batch), "arr": int(serviceinfo.ArraySizeCBOR(batch))})
 				break
 			}
 			if err != nil {
@@ -304,7 +304,6 @@ func run(p Params, res *Result, emit func(map[string]any), stage *atomic.Value) 
 		if failed {
 			break
 		}
-		emit(map[string]any{"ev": "batch", "nkv": len(batch), "arr": int(serviceinfo.ArraySizeCBOR(batch))})
 		batches = append(batches, batch)
 		if len(batch) == 0 {
 			empties++
@@ -374,22 +373,25 @@ func run(p Params, res *Result, emit func(map[string]any), stage *atomic.Value) 
 	if conc {
 		go func() { defer close(rdDone); readAll() }()
 	}
+	nfed, feedErr := 0, ""
 	for _, b := range batches {
 		for _, kv := range b {
 			pt.at("feed")
-			err := cw.WriteChunk(kv)
-			e := map[string]any{"ev": "feed", "key": keyJSON(KeyOf(kv.Key)), "n": len(kv.Val)}
-			if err != nil {
-				e["err"] = err.Error()
+			if err := cw.WriteChunk(kv); err != nil && feedErr == "" {
+				feedErr = err.Error()
 			}
-			emit(e)
+			nfed++
 		}
 	}
-	if err := cw.Close(); err != nil {
-		emit(map[string]any{"ev": "feedclose", "err": err.Error()})
-	} else {
-		emit(map[string]any{"ev": "feedclose"})
+	if err := cw.Close(); err != nil && feedErr == "" {
+		feedErr = err.Error()
 	}
+	// every chunk, in the order read, was given to WriteChunk, then Close
+	fe := map[string]any{"ev": "feeds", "count": nfed}
+	if feedErr != "" {
+		fe["err"] = feedErr
+	}
+	emit(fe)
 	if conc {
 		<-rdDone
 	} else {
